@@ -13,11 +13,13 @@ COMPONENTS = {
         "aspire.Aspire (fit, init_sampler, sample_posterior, enable_pool, resume_from_file)",
         "ImportanceSampler", "MCMCSampler.draw_initial_samples / log_prob", "MiniPCN", "Emcee",
         "SMCSampler / MiniPCNSMC / EmceeSMC (loop, mutate, checkpoint build/restore)",
+        "BlackJAXSMC (log_prob, _jax_log_prob, mutate: random-walk branch; in C05 C08 C10 C18 C20)",
         "Samples / SMCSamples (slicing, concatenate, resample, to_standard_samples)", "SMCHistory",
         "CompositeTransform / FlowTransform", "h5py / pickle",
     ],
-    "stub": ["minipcn.Sampler", "emcee.EnsembleSampler", "orng.ArrayRNG", "SimFlow proposal", "analytic likelihood / prior", "FakePool"],
-    "not_run": ["blackjax", "real minipcn/orng/emcee", "zuko/flowjax (see C03/C15/C20)"],
+    "stub": ["minipcn.Sampler", "emcee.EnsembleSampler", "orng.ArrayRNG", "SimFlow proposal", "analytic likelihood / prior", "FakePool",
+             "blackjax.rmh (jax random-walk stand-in) with a jax-traceable twin of the analytic model and proposal"],
+    "not_run": ["real blackjax (BlackJAXSMC nuts / hmc branches)", "real minipcn/orng/emcee", "zuko/flowjax (see C03/C15/C20)"],
 }
 
 
